@@ -188,11 +188,42 @@ def run(prog, rep):
     rep.check(good, "CLEAN-1", "Sectionable.clean cleans every child Section", "for child in self: child.clean()",
               "Sectionable.clean does not call clean() on every child Section", sc.where)
 
+    # FOUND-1: a child found by contains() is told from `not found` with `is None` - an empty Section and a Property without values are falsy
+    from ..astutil import truthiness_tests
+    rep.rule("FOUND-1", "in BaseSection.merge / unmerge / merge_check a local bound to <x>.contains(...) is never tested for truthiness: "
+                        "BaseSection and BaseProperty define __len__, so a Section without children and a Property without values count as "
+                        "`not found` and their copies survive clean() (or are added twice by merge)")
+    n_found = 0
+    for mname in ("merge", "unmerge", "merge_check"):
+        mf = prog.cls("BaseSection").lookup_method(mname)
+        if mf is None:
+            continue
+        for h in private_closure(mf):
+            found = set()
+            for st in walk_no_nested(h.node):
+                if isinstance(st, ast.Assign) and len(st.targets) == 1 and isinstance(st.targets[0], ast.Name) and isinstance(st.value, ast.Call) \
+                        and isinstance(st.value.func, ast.Attribute) and st.value.func.attr == "contains":
+                    found.add(st.targets[0].id)
+            n_found += len(found)
+            for st in ast.walk(h.node):
+                tests = [st.test] if isinstance(st, (ast.If, ast.IfExp, ast.While)) else []
+                for t0 in tests:
+                    for txt, pol, e0 in truthiness_tests(t0):
+                        if isinstance(e0, ast.Name) and e0.id in found:
+                            rep.fail("FOUND-1", "%s|%s" % (h.short, e0.id), "%s tests the truthiness of `%s`, the result of contains(): a found child "
+                                     "that is empty is taken for missing" % (h.short, e0.id), where(h, st),
+                                     witness="link target with a Property that has no values: after clean() the copy is still there")
+    rep.floor("FOUND-1", n_found, 2, "locals bound to contains() in merge / unmerge / merge_check")
+    if n_found:
+        rep.ok("FOUND-1", "results of contains() are compared with None", "%d locals" % n_found, "")
     from ..report import import_verdicts
     import_verdicts(prog, rep, "C11", ("ID-2",), "ID-2",
                     "merge adds clone()s of the referenced children and unmerge finds them again through contains(), i.e. by name: new_id(), "
                     "which clone calls, must not touch the name")
 
+    import_verdicts(prog, rep, "C11", ("CLONE-2",), "CLONE-2",
+                    "unmerge() removes the children that are == the children of the link / include target: the copies finalize() made with clone() "
+                    "must still equal their sources")
     import_verdicts(prog, rep, "C11", ("EQ-1",), "EQ-1",
                     "`cleaning restores the document` is a statement about ==: an __eq__ that leaves out link / include (or any content attribute) "
                     "calls a document restored that is not")
